@@ -259,6 +259,11 @@ C["C17"]["harnesses"] += [
 ]
 C["C03"]["harnesses"] += [SECRW]
 
+URLRUN = H("ZZURLRun", "internal/urldownloader", "the real web-seed download goroutine (Run) over a single-file torrent of 3 pieces of 4 bytes, arbitrary piece range, server answering in full / bad status / transport error / body one byte short, range possibly shortened after the first piece: results in piece order, every delivered buffer holds exactly that piece's bytes of the served file, Done on the last piece, one error result then nothing, a delivered buffer is never handed back to the pool by the downloader", T(40, 900), T(40, 900), replay="model")
+C["C01"]["harnesses"] += [URLRUN]
+C["C10"]["harnesses"] += [URLRUN]
+C["C01"]["assumptions"] += ["web-seed downloader: HTTP client replaced by a server model (status + body per range request); request construction (net/http, net/url) not encoded"]
+
 for pid, spec in C.items():
     spec = dict(property=pid, **spec)
     json.dump(spec, open(os.path.join(D, pid + ".json"), "w"), indent=1)
